@@ -71,7 +71,19 @@ def run_job(job, gendir, workroot, vacuity=False, trace=True):
     if job.get('unwind') is not None:
         cb += ['--unwind', str(job['unwind']), '--unwinding-assertions']
     if trace and not vacuity: cb += ['--trace']
-    if vacuity: cb += ['--property', job['entry'] + '.assertion.vacuity'] if False else []
+    if vacuity:
+        # the probe only needs its own assertion: look up its property id and check nothing else (cuts the cost of a probe from
+        # "the whole proof again" to one satisfiable query)
+        rcp, outp, _ = sh(['cbmc', binf, '--show-properties', '--json-ui'], wd, 300, log)
+        vid = []
+        try:
+            for e in json.loads(outp):
+                if isinstance(e, dict) and 'properties' in e:
+                    for pr in e['properties']:
+                        if pr.get('description') == 'vacuity': vid.append(pr.get('name'))
+        except Exception:
+            vid = []
+        for v in vid: cb += ['--property', v]
     rc, out, err = sh(cb, wd, timeout, log)
     res['seconds'] = round(time.time() - t0, 2)
     if rc == -9:
